@@ -98,9 +98,23 @@ static Instance* construct(unsigned slot, bool withLogger) {
   #endif
 #elif CFG_CTX == 1
 	cfg::CtxData c; c.slot = slot;
+	// a value context can be handed over as an lvalue or as an rvalue: two different constructors
+	const bool rvalue = ((W->caseNo + slot) & 1) != 0;
   #if HAS_LOG
+	if (rvalue) return new (mem) Instance(static_cast<cfg::CtxData&&>(c), lg);
 	return new (mem) Instance(c, lg);
   #else
+	if (rvalue) return new (mem) Instance(static_cast<cfg::CtxData&&>(c));
+	return new (mem) Instance(c);
+  #endif
+#elif CFG_CTX == 4
+	cfg::TinyCtx c;
+	const bool rvalue = ((W->caseNo + slot) & 1) != 0;
+  #if HAS_LOG
+	if (rvalue) return new (mem) Instance(static_cast<cfg::TinyCtx&&>(c), lg);
+	return new (mem) Instance(c, lg);
+  #else
+	if (rvalue) return new (mem) Instance(static_cast<cfg::TinyCtx&&>(c));
 	return new (mem) Instance(c);
   #endif
 #elif CFG_CTX == 2
